@@ -144,6 +144,7 @@ def check(ctx: Ctx):
     c03._guarded(ctx, "R05.5", c05.check_stateless)
     c03._guarded(ctx, "R10.2", c10.check_bbox)
     c03._guarded(ctx, "R10.1", c10.check_crop_data)
+    c03._guarded(ctx, "R10.4", c10.check_pair_constructor)
     c04.check_chained_replacement(ctx)
     c03._guarded(ctx, "R04.2", c04.check_relabel)
     c07.check_no_wraparound(ctx)
